@@ -115,10 +115,34 @@ def gen(ctx):
                     c = mk(r, nt, bo, (), ity, [0] * nsub, op, 'wi', pos, 'manyempty')
                     c['subs'] = [nd_spec(np.zeros((0,), dtype=dtype_str(nt, bo))) for _ in range(nsub)]
                     cases.append(c)
+    # every third failing append happens with both subarrays held open in an open_arrays() context
+    for i, c in enumerate(cases):
+        if i % 3 == 2:
+            c['heldopen'] = True
     return cases
 
 
 def run(ctx):
+    # directories in which nothing can be created (read-only for an unprivileged user, files writable)
+    RO = [dict(fail=f, meta=m, dtype='<f8', atom=[], indextype='int64') for f in ('shape', 'raise', 'none') for m in (False, True)]
+    for case, st in zip(RO, ctx.run_impl(RO, 'rodirs', shards=len(RO))):
+        key = dict(scenario='read-only directories, unprivileged user', fail=case['fail'], meta=case['meta'])
+        if 'skipped' in st:
+            ctx.count('rodirs-skipped'); continue
+        if 'harness_error' in st or 'child_failed' in st:
+            ctx.fail('harness-error', key, observed=st); continue
+        ctx.seen(key); ctx.count('rodirs:' + case['fail']); ctx.evaluations += 1
+        if 'unopenable' in st:
+            ctx.fail('failed-ragged-append:read-only-directories', key, detail='the array cannot be opened afterwards',
+                     expected='the two completed subarrays are kept', observed=st)
+            continue
+        why = None
+        if (case['fail'] == 'none') != (st['res'][0] == 'ok'):
+            why = 'outcome %s' % st['res'][:2]
+        why = why or raglib.check_c04(st, case) or raglib.check_c05(st, case)
+        if why:
+            ctx.fail('failed-ragged-append:read-only-directories', key, detail=why, expected='the two completed subarrays are kept',
+                     observed=dict(res=st['res'], fresh=str(st['fresh'])[:300], top=st['top']['descr']))
     cases = gen(ctx)
     obs = ctx.run_impl(cases, 'history', timeout=3000)
     terms, keep = [], []
